@@ -13,6 +13,12 @@
 (*   reprint-identical   the second serialisation equals the first.        *)
 EXTENDS MC_C03_V
 
+(* The environment of the recorded executions: one variable, ZCV_EMPTY, is  *)
+(* defined and empty (the value of an environment variable is a value like *)
+(* any other, the empty string included); no other name is defined.        *)
+VNoDefs(v) == [src |-> v, mk |-> "none", ek |-> "table", mtab |-> <<>>,
+               etab |-> <<<<"ZCV_EMPTY", TRUE, "">>>>]
+
 SameOutcome(o, g) ==
   /\ o.r = "ok" /\ g.r = "ok"
   /\ SameNode(o.tree, g.tree)
